@@ -1,4 +1,4 @@
-import DirectVerif.Lemmas.C14Recon
+import DirectVerif.Lemmas.C14Plumbing
 import DirectVerif.Props.C10
 /-!
 # C14 — volume reconstruction returns each volume once with its slices in order
@@ -228,5 +228,113 @@ theorem reconstruct_mixed_batch_raises :
     reconstruct (lookupSize (volumes [2, 3])) 0 RState.init
       (loaderBatches (fnameOfIndex (volumes [2, 3])) (fun i => (10 * i : Nat)) [[0, 1, 2, 3], [4]]) =
       ([], some RErr.valueError) := by decide
+
+/-! ## phase 2: `Engine.predict` with its plumbing, the data loader, `write_output_to_h5` -/
+
+/-- `predict` always asks `build_batch_sampler` for the `"sequential"` sampler, which exists -/
+theorem predict_uses_sequential_sampler :
+    buildBatchSampler (some "sequential") false = .ok .batchVolumeOverSequential := by
+  simp [buildBatchSampler]
+
+/-- only `"random"` (with a list of datasets) and `"sequential"` are accepted -/
+theorem build_batch_sampler_rejects (t : Option String) (l : Bool) (h1 : t ≠ some "random")
+    (h2 : t ≠ some "sequential") : buildBatchSampler t l = .error .valueError := by
+  simp [buildBatchSampler, h1, h2]
+
+/-- **`Engine.predict`, end to end, with the processing inside the loop.**  For every in-order loader
+(`num_workers`, `prefetch_factor` are not visible to the result), every layout of non-empty volumes whose
+items share, per volume, one `reconstruction_size` header from which `_compute_resolution(crop, …)`
+obtains a resolution `res` that `center_crop` accepts for every slice (`out i` = the processed slice,
+possibly of a different spatial shape per volume): rank `rank` yields exactly its volumes, each once,
+slice `k` = `out` of the volume's `k`-th item. -/
+theorem predict_full_spec {α σ} (mul : α → σ → α) (layout : List Nat) (hl : ∀ n ∈ layout, 0 < n)
+    (world rank bs : Nat) (hbs : 0 < bs) (key : CropKey) (fwd : Nat → Img α) (scale : Nat → σ)
+    (recon : Nat → List Nat) (deliver : Loader) (hd : InOrder deliver) (out : Nat → Img α)
+    (hout : ∀ v ∈ rankVols layout world rank 0, ∃ res,
+      computeResolution key (recon v.start) = .ok res ∧
+      ∀ i ∈ v.indices, recon i = recon v.start ∧ processSlice mul res (fwd i) (scale i) = some (out i)) :
+    predictFull mul layout world rank bs key fwd scale recon deliver =
+      ((rankVols layout world rank 0).map fun v => (v.indices.map out, v.id), none) := by
+  rw [← predict_spec layout hl world rank bs hbs out []]
+  unfold predictFull predict
+  simp only [predict_uses_sequential_sampler, hd _]
+  have hpos := rankVols_pos layout world rank 0 hl
+  rw [bvs_iterate_eq _ bs hbs hpos, ← reconstructP_ok]
+  congr 1
+  unfold loaderBatches
+  rw [List.map_map]
+  apply List.map_congr_left
+  intro p hp
+  rw [List.mem_flatMap] at hp
+  obtain ⟨v, hv, hpv⟩ := hp
+  obtain ⟨res, hres, hall⟩ := hout v hv
+  have hne := chunksOf_piece_ne_nil bs hbs _ p hpv
+  have hsub : ∀ i ∈ p, i ∈ v.indices := by
+    intro i hi
+    obtain ⟨j, hj, _⟩ := chunksOf_mem bs hbs _ p hpv
+    rw [hj] at hi
+    exact List.mem_of_mem_drop (List.mem_of_mem_take hi)
+  simp only [Function.comp]
+  rw [processBatch_piece mul key fwd scale recon out p hne (recon v.start) res hres
+    (fun i hi => (hall i (hsub i hi)).1) (fun i hi => (hall i (hsub i hi)).2)]
+
+-- per-volume shapes and header-driven crops: volume 0 is 2x3 cropped to 1x3, volume 1 is 3x2 cropped to 1x2
+example :
+    predictFull (fun (x : Int) (s : Int) => x * s) [1, 2] 1 0 2 .header
+      (fun i => if i = 0 then [[1, 2, 3], [4, 5, 6]] else [[10 * i, 1], [2, 3], [4, 5]])
+      (fun i => (i : Int) + 1) (fun i => if i = 0 then [1, 3, 1] else [1, 2, 1]) id =
+    ([([[[1, 2, 3]]], 0), ([[[4, 6]], [[6, 9]]], 1)], none) := by decide
+
+/-- the loop trusts the loader's order: if a loader delivered a volume's batches out of order, the
+volume would be yielded with its slices permuted and **no exception** (slice numbers are never read) -/
+theorem loader_reorder_misorders_slices :
+    reconstruct (lookupSize (volumes [4])) 0 RState.init
+      (loaderBatches (fnameOfIndex (volumes [4])) (fun i => (10 * i : Nat)) [[2, 3], [0, 1]]) =
+      ([([20, 30, 0, 10], 0)], none) := by decide
+
+/-- an unsupported `crop` value raises `ValueError` on the first batch; `"header"` needs a 3-entry size -/
+theorem compute_resolution_cases (r : List Nat) :
+    computeResolution .none r = .ok none ∧ computeResolution .other r = .error .valueError ∧
+      computeResolution .header [5, 7, 1] = .ok (some (5, 7)) ∧
+      computeResolution .header [5, 7] = .error .indexError := by
+  refine ⟨rfl, rfl, by simp [computeResolution], by simp [computeResolution]⟩
+
+/-- **h5 round trip**: after `write_output_to_h5(output, dir)` with pairwise distinct basenames, the file
+of every tuple holds, under the output key, exactly that volume's (channel-0) slices in order — whatever
+was in the directory before. -/
+theorem write_roundtrip {γ δ} (base : Nat → Nat) (chan0 : δ → γ) (key : String) (d : Dir γ)
+    (output : List (δ × Nat)) (hd : output.Pairwise fun a b => base a.2 ≠ base b.2) (o : δ × Nat)
+    (ho : o ∈ output) :
+    readFile (writeOutput base chan0 key d output) (base o.2) = some (key, chan0 o.1) :=
+  writeOutput_read base chan0 key output hd d o ho
+
+/-- files of other names are left alone -/
+theorem write_leaves_others {γ δ} (base : Nat → Nat) (chan0 : δ → γ) (key : String) (d : Dir γ)
+    (output : List (δ × Nat)) (m : Nat) (h : ∀ o ∈ output, base o.2 ≠ m) :
+    readFile (writeOutput base chan0 key d output) m = readFile d m :=
+  writeOutput_read_untouched base chan0 key output d m h
+
+/-- Files are named by the **basename** only: two volumes whose paths differ only in the directory
+collide and the later one silently replaces the earlier one (outside C14's statement, which is about
+the tuples yielded; recorded as a note). -/
+theorem write_collision_last_wins :
+    readFile (writeOutput (fun f => f % 10) id "reconstruction" [] [([1, 2], 3), ([7, 8, 9], 13)]) 3 =
+      some ("reconstruction", [7, 8, 9]) := by decide
+
+/-- **All ranks write into one directory**: with distinct basenames every volume of the dataset ends up
+in its own file holding its processed slices in order, for every world size and batch size. -/
+theorem predict_write_all_ranks {β} (layout : List Nat) (hl : ∀ n ∈ layout, 0 < n) (world : Nat)
+    (hw : 0 < world) (bs : Nat) (hbs : 0 < bs) (out : Nat → β) (zero : β) (base : Nat → Nat)
+    (hb : ∀ a b, base a = base b → a = b) (key : String) (v : Vol) (hv : v ∈ volumes layout) :
+    readFile (writeOutput base id key []
+        ((List.range world).flatMap fun r => (predict layout world r bs out zero).1)) (base v.id) =
+      some (key, v.indices.map out) := by
+  rw [predict_all_ranks layout hl world hw bs hbs out zero]
+  have hpw : ((volumes layout).map fun v => (v.indices.map out, v.id)).Pairwise
+      fun a b => base a.2 ≠ base b.2 := by
+    rw [List.pairwise_map]
+    exact (volsFrom_pairwise 0 0 layout).imp (fun h e => by have := hb _ _ e; omega)
+  exact write_roundtrip base id key [] _ hpw (v.indices.map out, v.id)
+    (List.mem_map.mpr ⟨v, hv, rfl⟩)
 
 end DirectVerif.C14
